@@ -12,7 +12,9 @@ LEVEL = "model_checking"
 RULE = (
     "every schedule with at most d deviations of each (project, jobs, resources); commands have "
     "start, action and exit as separate events; the monitor is evaluated at every command start "
-    "(occupancy only changes there); non-trivial: at least two commands were running at once, a "
+    "(occupancy only changes there); a seam conformance part runs the real tool with steps whose "
+    "process outlives its main script (the next command must wait for that process); "
+    "non-trivial: at least two commands were running at once, a "
     "resource-limited step waited, or a step defined under hold was started"
 )
 ASSUMPTIONS = [
